@@ -20,7 +20,8 @@ pub trait Vec1<T>: Vec1View<T> + Sized {
 
     #[inline]
     fn try_collect_from_iter<I: Iterator<Item = TResult<T>>>(iter: I) -> TResult<Self> {
-        Ok(Self::collect_from_iter(iter.map(|v| v.unwrap())))
+        let vec = iter.collect::<TResult<Vec<T>>>()?;
+        Ok(Self::collect_from_iter(vec.into_iter()))
     }
 
     #[inline]
